@@ -366,6 +366,14 @@ def _inline_new_helpers(prog, max_depth=3):
             return None
         if "::tests::" in c or len(h.blocks) > 80 or any(loc["ty"].get("k") == "param" for loc in h.locals[:h.argc + 1]):
             return None
+        # a `?`-only helper ending in one Ok(payload) is summarised when the terms are built (payload + "every tried
+        # value is Ok"): more precise than threading its returns through the caller's blocks
+        from . import terms as _terms
+        try:
+            if _terms.try_helper_summary(prog, c) is not None:
+                return None
+        except Exception:
+            pass
         return h
     for path, body in list(prog.bodies.items()):
         if "::tests::" in path or inlinable(path) is not None and False:
